@@ -56,10 +56,17 @@ def build_tests(case):
             '''a Student test whose p-values are dictated by the case'''
             def evaluate(self):
                 return TestResultStudent(self, [np.zeros_like(p) for p in parrs], list(parrs))
-        inner = PvalueStub(Dataset(zero, zero), *[Dataset(zero, zero) for _ in parrs],
+        dsref = Dataset(zero, zero)
+        if case.get('refmask') is not None and shape:      # a reference that went through Dataset.mask()
+            dsref = dsref.mask(np.array(case['refmask'], dtype=bool).reshape(shape))
+        inner = PvalueStub(dsref, *[Dataset(zero, zero) for _ in parrs],
                            name='stub', alpha=case['alpha'])
     else:
-        dsets = [Dataset(arr(v, (lay[k] if k < len(lay) else 'CC')[0]), arr(e, (lay[k] if k < len(lay) else 'CC')[1]))
+        dty = case.get('dtypes') or []
+        msk = case.get('masks') or []
+        dsets = [layouts.make_dataset(Dataset, shape, [unbits(b) for b in v], [unbits(b) for b in e],
+                                      lay[k] if k < len(lay) else ('C', 'C'), dty[k] if k < len(dty) else None,
+                                      msk[k] if k < len(msk) else None)
                  for k, (v, e) in enumerate(case['datasets'])]
         inner = TestStudent(*dsets, name='student', alpha=case['alpha'], ndf=case['ndf'])
     tbonf = TestBonferroni(name='bonf', test=inner, alpha=case['alpha'])
@@ -86,12 +93,35 @@ def static_methods_differ(tbonf, tholm, inner_res, rbonf, rholm):
     return None
 
 
+def history_differs(case, inner, tbonf, tholm, rbonf, rholm, before):
+    '''the same test objects evaluated again (in another order): equal results, earlier results and
+    the first test's alpha / ndf / threshold unchanged; None when all is well'''
+    def snap(res):
+        return (bool(res), [np.array(x, copy=True) for x in res.rejected_null_hyp], list(res.nb_rejected))
+
+    def same(a, b):
+        return a[0] == b[0] and a[2] == b[2] and all(np.array_equal(x, y) for x, y in zip(a[1], b[1]))
+    sb, sh = snap(rbonf), snap(rholm)
+    order = [tholm, tbonf, tholm] if len(case['shape']) % 2 else [tbonf, tholm, tbonf]
+    for test in order:
+        again = snap(test.evaluate())
+        if not same(again, sb if test is tbonf else sh):
+            return f're-evaluating the {type(test).__name__} gives another result'
+        if not same(snap(rbonf), sb) or not same(snap(rholm), sh):
+            return 'an earlier correction result changed after another evaluation'
+        if (bits(inner.alpha), inner.ndf, bits(inner.threshold)) != before:
+            return (f'the first test was modified by a correction: alpha {unbits(before[0])!r} -> '
+                    f'{float(inner.alpha)!r}, threshold {unbits(before[2])!r} -> {float(inner.threshold)!r}')
+    return None
+
+
 def run_impl(case):
     '''canonical observation of one case (dict), or {'raise': class name}'''
     shape = tuple(case['shape'])
     try:
         with np.errstate(all='ignore'):
             inner, tbonf, tholm = build_tests(case)
+            before = (bits(inner.alpha), inner.ndf, bits(inner.threshold))
             rbonf = tbonf.evaluate()
             rholm = tholm.evaluate()
             inner_res = rbonf.first_test_res
@@ -120,6 +150,8 @@ def run_impl(case):
                     'hnb': int(rholm.nb_rejected[d]),
                 })
             obs['static_differs'] = static_methods_differ(tbonf, tholm, inner_res, rbonf, rholm)
+            obs['history_differs'] = history_differs(case, inner, tbonf, tholm, rbonf, rholm, before)
+            obs['inner_alpha'] = bits(inner.alpha)
             if len(rbonf.rejected_null_hyp) != ndat or len(rholm.rejected_null_hyp) != ndat:
                 return {'raise': 'WrongNumberOfDatasets'}
             return obs
@@ -134,6 +166,13 @@ def oracle(ctx, case, obs):
     tag = f' :: {json.dumps(case)[:600]}'
     if 'raise' in obs:
         ctx.oracle_failure('corrections raise ' + obs['raise'] + tag, case, key='raises')
+        return
+    if obs.get('history_differs'):
+        ctx.oracle_failure('history: ' + obs['history_differs'] + tag, case, key='history')
+        return
+    if obs.get('inner_alpha') != bits(case['alpha']):
+        ctx.oracle_failure(f'the first test reads alpha {unbits(obs["inner_alpha"])!r}, requested {case["alpha"]!r}'
+                           + tag, case, key='inner-alpha')
         return
     if obs.get('static_differs'):
         ctx.oracle_failure('static method called directly differs from evaluate(): ' + obs['static_differs']
@@ -207,7 +246,8 @@ def oracle(ctx, case, obs):
     if obs['bonf_verdict'] != nothing_b or obs['holm_verdict'] != nothing_h:
         ctx.oracle_failure('verdict is not "nothing flagged"' + tag, case, key='verdict')
         return
-    if obs['student_verdict'] is True and not (obs['bonf_verdict'] and obs['holm_verdict']):
+    if obs['student_verdict'] is True and not case.get('masks') \
+            and not (obs['bonf_verdict'] and obs['holm_verdict']):
         ctx.oracle_failure('Student comparison passes bin by bin but a correction at the same level fails'
                            + tag, case, key='student-pass-correction-fail')
 
@@ -287,7 +327,30 @@ def gen_student(rng, m, shape, alpha):
         other = [v if rng.random() < 0.1 else (v + rng.gauss(0, 1) if v == v and abs(v) != math.inf else w)
                  for v, w in zip(ref, vals())]
         sets.append([other, errs()])
+    case_extra = {}
+    q = rng.random()
+    if q < 0.2:                          # integer-valued data with integer dtypes (all or mixed)
+        all_int = rng.random() < 0.6
+        dts = []
+        for k, (v, e) in enumerate(sets):
+            int_val = all_int or rng.random() < 0.5
+            int_err = rng.random() < 0.5
+            if int_val:
+                v[:] = [float(round(x * 10)) if x == x and abs(x) != math.inf else x for x in v]
+            if int_err:
+                e[:] = [float(round(x * 6)) if x == x else x for x in e]
+            dts.append([rng.choice(layouts.INT_VALUE_DTYPES) if int_val else 'float64',
+                        rng.choice(layouts.INT_ERROR_DTYPES) if int_err else 'float64'])
+        case_extra['dtypes'] = dts
+    elif q < 0.5 and shape:              # datasets that went through Dataset.mask()
+        def pattern():
+            r = rng.random()
+            return [0] * m if r < 0.2 else [1] * m if r < 0.3 else [int(rng.random() < 0.3) for _ in range(m)]
+        who = rng.choice(['ref', 'cmp', 'both'])
+        case_extra['masks'] = [pattern() if (who == 'both' or (k == 0) == (who == 'ref')) else None
+                               for k in range(len(sets))]
     return {'kind': 'student', 'alpha': alpha, 'shape': shape, 'ndf': rng.choice([None, 1, 2, 10, 1000, 10 ** 6]),
+            **case_extra,
             'layouts': ([[layouts.pick(rng, shape), layouts.pick(rng, shape)] for _ in sets] if rng.random() < 0.6
                         else [[k, k] for k in [layouts.pick(rng, shape, plain=0.0)] for _ in sets]),
             'datasets': [[[bits(x) for x in v], [bits(x) for x in e]] for v, e in sets]}
@@ -333,6 +396,18 @@ def corpus():
          'datasets': [[[bits(x) for x in (1.0, NAN, 3.0)], [bits(x) for x in (0.1, 0.1, 0.1)]],
                       [[bits(x) for x in (1.0, 2.0, 3.0)], [bits(x) for x in (0.1, 0.1, 0.1)]]]},
     ]
+    p6 = [0.3, 0.0001, 0.5, 0.0045, 0.011, 0.9]
+    for refmask in ([0] * 6, [0, 1, 0, 0, 0, 1], [1] * 6):            # masked reference: still 6 bins
+        cases.append(dict(stub_case(0.05, [2, 3], [p6]), refmask=refmask))
+    doc = [[[5.2, 5.3, 5.25, 5.4, 5.5, 9.0], [0.2, 0.25, 0.1, 0.2, 0.3, 0.1]],
+           [[5.1, 5.9, 5.8, 5.3, 4.5, 1.0], [0.1, 0.1, 0.05, 0.4, 0.1, 0.1]]]
+    for masks in ([[0, 1, 0, 0, 0, 1], None], [None, [0, 1, 0, 0, 0, 1]], [[1] * 6, None]):
+        cases.append({'kind': 'student', 'alpha': 0.05, 'shape': [6], 'ndf': 10, 'masks': masks,
+                      'datasets': [[[bits(x) for x in v], [bits(x) for x in e]] for v, e in doc]})
+    counts = [[[52, 53, 52, 54, 55, 90], [2, 3, 1, 2, 3, 1]], [[51, 59, 58, 53, 45, 10], [1, 1, 2, 4, 1, 1]]]
+    for dts in ([['int64', 'int64'], ['int64', 'int64']], [['int32', 'uint32'], ['float64', 'float64']]):
+        cases.append({'kind': 'student', 'alpha': 0.05, 'shape': [2, 3], 'ndf': None, 'dtypes': dts,
+                      'datasets': [[[bits(x) for x in v], [bits(x) for x in e]] for v, e in counts]})
     return cases
 
 
@@ -391,7 +466,7 @@ def gen_cases(ctx):
     ctx.count('corpus', len(cases))
     cases += layout_cases()
     ctx.count('layout_grid_cases', len(cases) - ctx.dist['corpus'])
-    nrand = 500 if quick else 10000
+    nrand = 400 if quick else 10000
     mmax = 40 if quick else 120
     for _ in range(nrand):
         m = rng.choice([1, 2, 3, 4, 5, 6, 8]) if rng.random() < 0.5 else rng.randint(1, mmax)
@@ -407,7 +482,11 @@ def gen_cases(ctx):
         parrs = [gen_pvals(rng, m, alpha, nan_rate) for _ in range(ndat)]
         if rng.random() < 0.04:
             parrs = [[p[0]] * m for p in parrs]                     # constant array: broadcastable
-        cases.append(stub_case(alpha, shape, parrs, [layouts.pick(rng, shape) for _ in parrs]))
+        case = stub_case(alpha, shape, parrs, [layouts.pick(rng, shape) for _ in parrs])
+        if shape and rng.random() < 0.12:                           # masked reference dataset
+            r = rng.random()
+            case['refmask'] = [0] * m if r < 0.2 else [1] * m if r < 0.3 else [int(rng.random() < 0.3) for _ in range(m)]
+        cases.append(case)
     return cases
 
 
@@ -430,6 +509,10 @@ def coq_case(case, obs):
 def classify(ctx, case, obs):
     '''input distribution + non-triviality'''
     ctx.count('kind_' + case['kind'])
+    if case.get('masks') or case.get('refmask') is not None:
+        ctx.count('masked_datasets_cases')
+    if case.get('dtypes'):
+        ctx.count('integer_dtype_cases')
     for kind in case.get('layouts') or []:
         for k in (kind if case['kind'] == 'student' else [kind]):
             ctx.count('layout_' + k)
@@ -457,7 +540,7 @@ def run(ctx):
     ctx.rule = ('corpus (NaN, p == level/m, scalars, ties) + random p-value arrays of size 1..40 (quick) / '
                 '1..120 (thorough), scalar to 3-d shapes, 1..3 compared datasets, p-values drawn around the '
                 'per-rank levels incl. the exact levels and their float neighbours, ties 20%, 0/1 10%, NaN 12% '
-                'in a third of the cases; every p-value / value / error array handed over C- or Fortran-ordered, axis-permuted, strided, negatively strided, read-only or broadcast (55% non-plain) and the documented static methods called directly on them; 15% real Student tests; non-trivial = some array has flagged and '
+                'in a third of the cases; every p-value / value / error array handed over C- or Fortran-ordered, axis-permuted, strided, negatively strided, read-only or broadcast (55% non-plain) and the documented static methods called directly on them; 15% real Student tests (20% of them integer-valued with int dtypes, 30% masked through Dataset.mask(); 12% of the stub cases have a masked reference); every case re-evaluates the same Bonferroni/Holm/first-test objects in another order and re-reads the earlier results; non-trivial = some array has flagged and '
                 'unflagged bins under Holm-Bonferroni; distinct by case content')
     cases = gen_cases(ctx)
     exh, n_exh, bound = exhaustive_cases(ctx.tier)
